@@ -222,6 +222,18 @@ def _f_trigger2(d):
   d.apply(["UpdateRecord", "T", 1, {"A": 2}])
 
 
+def _f_empties(d):
+  """empty columns (isFormula=True, formula='') whose type was chosen before any value was entered: entering data converts
+  them to data columns (C31: that conversion is not the user's own action)"""
+  d.apply(["AddTable", "E", [{"id": "D", "type": "Text", "isFormula": False},
+                             {"id": "F", "type": "Any", "isFormula": True, "formula": "$D.upper() + str($EI or '')"}]])
+  for c, ty in (("ET", "Text"), ("EI", "Int"), ("EA", "Any"), ("EC", "Choice"), ("ED", "Date")):
+    d.apply(["AddColumn", "E", c, {}])
+    if ty != "Any":
+      d.apply(["ModifyColumn", "E", c, {"type": ty}])
+  d.apply(["BulkAddRecord", "E", [None, None], {"D": ["a", "b"]}])
+
+
 def _f_cascade(d):
   """two-level auto-removal cascades: N refers (with a display helper column) to rows of a summary table of P and is
   itself summarised by that reference; N also has Ref/RefList DATA columns with default formulas pointing into P"""
@@ -278,7 +290,7 @@ def _f_lookup(d):
 
 
 FIXTURES = {"basic": _f_basic, "types": _f_types, "twoway": _f_twoway, "summary": _f_summary,
-            "trigger": _f_trigger, "trigger2": _f_trigger2, "cascade": _f_cascade, "views": _f_views, "cycles": _f_cycles, "lookup": _f_lookup}
+            "trigger": _f_trigger, "trigger2": _f_trigger2, "cascade": _f_cascade, "empties": _f_empties, "views": _f_views, "cycles": _f_cycles, "lookup": _f_lookup}
 
 
 def build(name, replica=True):
@@ -469,7 +481,7 @@ def gen_action(h, d, pfx, pools):
   if pools.max_cols and len(cols) > pools.max_cols:
     # keep the first max_cols data columns and the first formula column
     sc = d.e.schema[t].columns
-    fcols = [c for c in cols if sc[c].isFormula][:1]
+    fcols = [c for c in cols if sc[c].isFormula and sc[c].formula][:1] + [c for c in cols if sc[c].isFormula and not sc[c].formula][:2]
     cols = [c for c in cols if not sc[c].isFormula][:pools.max_cols] + fcols
   if kind == "ReplaceTableData":
     rows = d.row_ids(t)
@@ -694,6 +706,13 @@ def check_direct(d, ag, bundle):
   # clause (4) is judged only for bundles made of record edits: a type change in the same bundle emits
   # conversion deltas for the same cells, which are not the user's edits
   only_records = all(u[0] in RECORD_KINDS for u in bundle)
+  # clause (5): a bundle of record edits on user tables asks for no schema change: the conversion of an empty column while
+  # data is entered (ModifyColumn / AddColumn doc actions and the matching _grist_Tables_column updates) is non-direct
+  if only_records and not any(str(u[1]).startswith("_grist_") for u in bundle):
+    for r, direct in zip(reprs, ag.direct):
+      if direct and (r[0] in ("ModifyColumn", "AddColumn", "RemoveColumn", "RenameColumn", "AddTable", "RemoveTable", "RenameTable")
+                     or r[1] in ("_grist_Tables_column", "_grist_Tables")):
+        return "schema action marked direct in a bundle of record edits: %s" % (r,)
   for ua in bundle:
     kind, table = ua[0], ua[1]
     if not only_records or kind not in RECORD_KINDS or table in summ or table.startswith("_grist_"):
